@@ -8,7 +8,9 @@ d == In("d")
 BinOps == {"add", "sub", "mul", "floordiv", "mod", "lt", "le", "eq", "ne", "gt", "ge"}
 \* operators with a reactive left operand, with a constant left operand (reflected) and with two reactive operands
 EOps == {Bin(op, a, C(2)) : op \in BinOps} \cup {Bin(op, C(2), a) : op \in BinOps} \cup {Bin(op, a, b) : op \in {"add", "floordiv", "mod", "lt"}}
-EBasic == { Bin("add", a, a),                                   \* one input as root and as argument
+EBasic == { Bin("add", a, a),
+            Bin("mul", a, Bin("add", a, b)),                    \* an argument that mentions a shared input before a further one
+            Idx(l, Bin("sub", Un("len", l), a)),                                   \* one input as root and as argument
             Bin("mul", Bin("add", a, C(1)), b),                 \* derived expression with a reactive argument
             Bin("mul", Bin("add", a, C(1)), Bin("add", a, C(1))),   \* shared sub-expression
             Bin("add", p, a), Bin("sub", a, p),                 \* a Parameter as root / as argument
